@@ -528,6 +528,30 @@ def rule_cast(rep, F, aud):
     rep.floor("integer casts inspected in (de)serialisers", 80, total)
 
 
+def rule_inverse_tables(rep, F):
+    import piecewise as pw
+    rep.rule("RW-inverse", "the compact Plutus constructor tag functions of writer and reader are inverse piecewise-affine tables (exact interval comparison)")
+    a = F.by_key("ConstrPlutusData::alternative_to_compact_cbor_tag")
+    b = F.by_key("ConstrPlutusData::compact_cbor_tag_to_alternative")
+    if len(a) != 1 or len(b) != 1:
+        rep.lost("compact constructor tag functions not found")
+        return
+    try:
+        ta, tb = pw.table(F, a[0]), pw.table(F, b[0])
+    except pw.NotPiecewise as e:
+        rep.lost("compact constructor tag functions are no longer piecewise-affine tables (%s)" % e)
+        return
+    for (t1, t2, n1, n2) in ((ta, tb, "alternative_to_compact_cbor_tag", "compact_cbor_tag_to_alternative"), (tb, ta, "compact_cbor_tag_to_alternative", "alternative_to_compact_cbor_tag")):
+        for lo, hi, r in t1:
+            if r[0] != "affine":
+                continue
+            rep.inst("RW-inverse")
+            ilo, ihi = lo + r[1], hi + r[1]
+            ok = any(l2 <= ilo and ihi <= h2 and r2 == ("affine", -r[1]) for l2, h2, r2 in t2)
+            if not ok:
+                rep.violation("RW-inverse", "%s|%d..%d" % (n1, lo, hi), "%s maps %d..%d to %d..%d but %s does not map that range back (its table: %s): such constructor data does not survive a round trip" % (n1, lo, hi, ilo, ihi, n2, [(l2, h2 if h2 < (1 << 63) else "max", r2) for l2, h2, r2 in t2]), {})
+
+
 def check(rep, F, tier, replay=None):
     aud = common.load_table("e2_audited.json")
     inv = Inventory(F, thorough=(tier == "thorough"))
@@ -538,6 +562,7 @@ def check(rep, F, tier, replay=None):
     rule_rw_order(rep, F, inv)
     rule_rw_index(rep, F, inv)
     rule_rw_tag(rep, F, inv)
+    rule_inverse_tables(rep, F)
     rule_pair(rep, F, inv, aud)
     rule_negint(rep, F)
     rule_cast(rep, F, aud)
